@@ -6,8 +6,9 @@ CONSTANTS
   Extras <- small_Extras
   PreSizes <- big_Pre
   PreActive <- big_PreActive
-  MaxSteps = 40
+  MaxWrites = 40
   Dev_RawLenTest = TRUE
+  EmitHist = FALSE
 INIT Init
 NEXT Next
 VIEW View
